@@ -207,6 +207,8 @@ def explore(job):
                 o = run_isolated(engine, cand, prop, token, '%s-s%d' % (tag, n[0]))
                 return o.get('viol')
             budget = int(os.environ.get('VERIF_SHRINK_BUDGET', '0')) or getattr(engine, 'SHRINK_BUDGET', 250)
+            if hasattr(engine, 'shrink_budget'):
+                budget = min(budget, engine.shrink_budget(case))
             mcase, mviol = shr.shrink(case, viol, test,
                                       getattr(engine, 'simplify', None), budget)
             # signature is computed from the minimised case
